@@ -1,7 +1,8 @@
 /-
   C17 — property theorems.  Statements of the property over ALL schedules (any interleaving
   of the control script and any number of player threads at the yield points), any chunk
-  counts, any control script; non-vacuity examples; audit.  Helper lemmas: `ALV.Lemmas.C17*`.
+  counts, any control script; safety AND liveness (every run is finite, `close` returns, what
+  holds afterwards); non-vacuity examples; audit.  Helper lemmas: `ALV.Lemmas.C17*`.
 -/
 import ALV.Lemmas.C17Close
 import ALV.Lemmas.C17Chunks
@@ -245,6 +246,13 @@ theorem terminal_states {cfg : Cfg} {script : List Cmd} {s : State} (hr : Reach 
       p.pc = .goWait ∧ p.go = false :=
   terminal_shape hr ht
 
+/-- non-vacuity: the second alternative is reachable with the repaired `stop()` too — by the
+script's own `join` of a player it has paused (`th.pause(); th.join()` blocks on the real code
+as well: scheduler run `play ; pause ; join ; close` ends in `0:th0.join:0,1:go0.wait:0`) -/
+example : let s := (runSched ⟨false, true, 2⟩ (init [.play [101], .ctl .pause 0, .join 0, .close])
+      (mkSched [0,0,0,0,0,1,0,0,0,1,1,1,0])).1
+    (terminal ⟨false, true, 2⟩ s = true ∧ s.mpc = .jJoin 0 ∧ pcAt s 0 = some .goWait) := by decide
+
 /-- **C17.10 close_never_blocks_fixed** — with the repaired `stop()` and `wait=False` no run
 ends inside `close`, whatever was paused, for EVERY script: a run can only get stuck in a `join`
 call of the script itself, on a player the script has paused. -/
@@ -401,6 +409,13 @@ theorem shutdown_no_pause (cfg : Cfg) (script : List Cmd) (hn : NoPause script)
       exact ha.1
     obtain ⟨h1, h2, _, h4⟩ := after_done hr ht hd hc
     exact ⟨ha, h1, h2, h4⟩
+
+/-- non-vacuity of `shutdown_no_pause`: its hypotheses hold on a maximal run of two players
+(`wait=True`, code as it was, `stop` of one and `join` of the other) -/
+example : closedAfter (runSched ⟨true, false, 1⟩
+      (init [.play [101, 102], .play [201], .ctl .stop 0, .join 1, .close])
+      (mkSched [0,0,0,0,0,1,0,0,0,1,1,1,0,0,1,2,2,2,0,0,0,2,2,2,0,1,1,2,2,1,0,0,1,1,0,0,0,0])).1 = true :=
+  ((shutdown_no_pause _ _ (by intro i h; simp at h) (by simp) _ (by decide)).2 (by decide)).2.2.1
 
 /-- **C17.13d shutdown_wait** — and for `wait=True` (or false) with the repaired `stop()`, when
 no player is paused at the time `close` is called. -/
